@@ -5,11 +5,20 @@
 pub mod engine;
 pub mod tape;
 
+pub mod common;
+pub mod objs;
+pub mod p02_queries;
+pub mod p03_flat;
 pub mod p19_address;
 pub mod p20_endian;
 
 use engine::Property;
 
 pub fn properties() -> Vec<Property> {
-    vec![p19_address::property(), p20_endian::property()]
+    vec![
+        p02_queries::property(),
+        p03_flat::property(),
+        p19_address::property(),
+        p20_endian::property(),
+    ]
 }
